@@ -2,7 +2,7 @@
 # Runs a check against /repo with one seeded breaking change applied, then restores /repo.
 # usage: tools/seedrun.sh <seeded-dir-name> <Cxx> [quick|thorough]
 set -u
-S=/verif/seeded/$1; P=$2; T=${3:-quick}
+S=/verif/seeded/$1; [ -d "$S" ] || S=/verif/mutants/$1; P=$2; T=${3:-quick}
 [ -z "$(git -C /repo status --porcelain --untracked-files=no)" ] || { echo "/repo is not clean"; exit 2; }
 git -C /repo apply $S/patch.diff || exit 2
 cd /verif && ./run.sh $P $T > out/seedrun-$1-$P.log 2>&1; rc=$?
